@@ -2352,12 +2352,8 @@ impl Archive {
                         // IMPLODE compression - no compression type byte prefix
                         match compression::decompress(sector_data, 0x08, expected_size) {
                             Ok(decompressed) => decompressed,
-                            Err(e) => {
-                                log::warn!(
-                                    "Failed to decompress IMPLODE sector {i}: {e}. Using zeros."
-                                );
-                                vec![0u8; expected_size]
-                            }
+                            // Substituting zeros would hand back wrong content silently
+                            Err(e) => return Err(e),
                         }
                     } else {
                         // COMPRESS flag - has compression type byte prefix
@@ -2369,10 +2365,8 @@ impl Archive {
                             expected_size,
                         ) {
                             Ok(decompressed) => decompressed,
-                            Err(e) => {
-                                log::warn!("Failed to decompress sector {i}: {e}. Using zeros.");
-                                vec![0u8; expected_size]
-                            }
+                            // Substituting zeros would hand back wrong content silently
+                            Err(e) => return Err(e),
                         }
                     }
                 } else {
